@@ -46,9 +46,26 @@ func (cr *caseRun) existingTopics() []int {
 	return out
 }
 
+// Ephemeral queues drop on overflow, and whether a queue is full at the instant of a put
+// depends on how fast the pump/consumer drains it.  To keep every case deterministic
+// the generator publishes to the ephemeral topic only when its memory queue cannot fill
+// up (mem-queue-size 50) or cannot drain (no channel), and gives consumers of an
+// ephemeral channel a non-zero RDY only when nothing is being published (see "eph").
+func (cr *caseRun) ephTopicOK() bool {
+	if cr.memq >= 50 {
+		return true
+	}
+	for k := range cr.chans {
+		if k[0] == 3 {
+			return false
+		}
+	}
+	return true
+}
+
 func (cr *caseRun) pickTopic(ephOK bool) int {
 	ts := []int{1, 1, 1, 2}
-	if ephOK {
+	if ephOK && cr.ephTopicOK() {
 		ts = append(ts, 3)
 	}
 	return ts[cr.r.Intn(len(ts))]
@@ -119,11 +136,13 @@ func (cr *caseRun) step(w weights) {
 		if cr.r.Chance(35) {
 			n = 2 + cr.r.Intn(4)
 		}
-		deferred := n == 1 && cr.r.Chance(12)
+		// with mem-queue-size 0 a deferred publish keeps its timer only if the topic pump
+		// happens to be waiting in its select at that instant (unbuffered hand-off): a race
+		deferred := n == 1 && cr.memq > 0 && cr.r.Chance(12)
 		cr.opPub(t, n, deferred, cr.r.Chance(40))
 	case "sub":
 		sc := cr.opConnect(cr.r.Chance(40), cr.r.Chance(20))
-		t, c := cr.pickTopic(ephOK), cr.pickChanID(ephOK || w["eph"] > 0 && cr.r.Chance(20))
+		t, c := cr.pickTopic(ephOK && cr.memq >= 50), cr.pickChanID(false)
 		cr.opSub(sc, t, c)
 		if sc.alive && cr.r.Chance(70) {
 			cr.opRdy(sc, []int{1, 1, 2, 3, 5}[cr.r.Intn(5)])
@@ -245,7 +264,7 @@ func (cr *caseRun) step(w weights) {
 		}
 		cr.opDeleteTopic(ts[cr.r.Intn(len(ts))])
 	case "createc":
-		cr.opCreateChan(cr.pickTopic(false), cr.pickChanID(false))
+		cr.opCreateChan(cr.pickTopic(ephOK && cr.memq >= 50), cr.pickChanID(false))
 	case "createt":
 		cr.opCreateTopic(cr.pickTopic(false))
 	case "restart":
@@ -253,18 +272,46 @@ func (cr *caseRun) step(w weights) {
 	case "eph":
 		// an ephemeral channel with a consumer that has RDY 0 (so overflow is deterministic),
 		// publishes beyond the memory queue size, then the consumer leaves
-		sc := cr.opConnect(false, false)
-		t := cr.pickTopic(false)
-		cr.opSub(sc, t, 3)
-		cr.opPub(t, 2+cr.r.Intn(3), false, false)
-		cr.opPub(t, 1+cr.r.Intn(3), false, true)
-		if cr.r.Chance(50) {
-			cr.opRdy(sc, 2)
+		if cr.memq == 0 {
+			return // an unbuffered ephemeral queue keeps a message only if a consumer is waiting
 		}
-		if cr.r.Chance(70) {
+		t := cr.pickTopic(false)
+		if cr.topicDepth(t) != 0 {
+			// a backlog would be pumped from memory and disk in no particular order, so
+			// WHICH message an overflowing ephemeral queue keeps would be a race
+			return
+		}
+		sc := cr.opConnect(false, false)
+		cr.opSub(sc, t, 3)
+		if !sc.alive {
+			return
+		}
+		// one message at a time (a batch is split over the topic's memory and disk queues
+		// and pumped in no particular order)
+		for i, n := 0, 2+cr.r.Intn(5); i < n; i++ {
+			cr.opPub(t, 1, false, cr.r.Bool())
+		}
+		if cr.r.Chance(60) {
+			cr.opRdy(sc, 2)
+			for len(sc.held) > 0 && cr.r.Chance(70) {
+				tg, id, _ := cr.someHeld(sc)
+				cr.answer(sc, "FIN", tg, id, 0)
+			}
+		}
+		// the consumer leaves before anything else is published: the channel disappears
+		if sc.alive {
 			cr.opDisconnect(sc)
 		}
 	}
+}
+
+func (cr *caseRun) topicDepth(t int) int64 {
+	for _, tp := range cr.statsInproc().Topics {
+		if tid(tp.TopicName) == t {
+			return tp.Depth
+		}
+	}
+	return 0
 }
 
 // drain: make every durable channel deliverable and finish everything it still owes
